@@ -38,6 +38,9 @@ def regular_file_or_default_suite_file(path: Path) -> Path:
     except (FileNotFoundError, NotADirectoryError):
         raise FileNotAccessibleSimpleError(path,
                                            utils.ERR_MSG__NOT_EXISTS)
+    except (OSError, ValueError) as ex:
+        raise FileNotAccessibleSimpleError(path,
+                                           str(ex))
 
     if stat.S_ISREG(stat_mode):
         return path
